@@ -248,12 +248,24 @@ func findingSrc(min string) string {
 
 func run(c *hx.Ctx) error {
 	res := c.Res
-	res.Rule = "generated function bodies of 3–12 declarations/assignments over the 15 basic types (base programs, ≈70% accepted by go/types) and one single-point mutant of each (20 mutation kinds: other identifier, wrap/drop conversion, swap operator, boundary constant, typed literal, shift-count kind, nil, random subexpression, undefined name, delete/duplicate/swap statement, changed declared type, :=/=, var/const, assign to other name, forced comparison, dropped operator, unused variable); systematic programs (every ordered pair of basic types under an operator of each class with variable/constant/untyped operands; every integer type at min-1, min, max, max+1 in 9 contexts; 19 count kinds × 9 shifted operands); a declaration/use stream (multi-name := with partial redeclaration, multi-value calls, assigned-never-read, closures, shadowing, if/for/switch init, blank identifier, labels, imports) and a terminating-statement stream (functions with results ending in every statement form of the specification's list, half of them terminating by construction with a break/continue injected at some depth; skeleton also judged by the Lean terminating predicate); small streams outside the model judged by Build-vs-go/types only (complex/interface operands, non-constant shifts of untyped constants, package-level declarations, imports); an assignability/convertibility matrix (assign_matrix.go: 71 pool types incl. interfaces with methods and native types implementing them × 203 values incl. non-constant untyped booleans and shifts × 55 contexts, systematic — all cells at the thorough tier; every untyped value in every context, typed values in three rotating contexts and the neighbourhood of every finding class at the quick tier — plus random programs with nested values; finding classes predicted from cell coordinates and go/types' verdict, precision measured per run); a case is non-trivial when it has at least one operator or conversion; distinct by source text"
+	res.Rule = "generated function bodies of 3–12 declarations/assignments over the 15 basic types (base programs, ≈70% accepted by go/types) and one single-point mutant of each (20 mutation kinds: other identifier, wrap/drop conversion, swap operator, boundary constant, typed literal, shift-count kind, nil, random subexpression, undefined name, delete/duplicate/swap statement, changed declared type, :=/=, var/const, assign to other name, forced comparison, dropped operator, unused variable); systematic programs (every ordered pair of basic types under an operator of each class with variable/constant/untyped operands; every integer type at min-1, min, max, max+1 in 9 contexts; 19 count kinds × 9 shifted operands); a declaration/use stream (multi-name := with partial redeclaration, multi-value calls, assigned-never-read, closures, shadowing, if/for/switch init, blank identifier, labels, imports) and a terminating-statement stream (functions with results ending in every statement form of the specification's list, half of them terminating by construction with a break/continue injected at some depth; skeleton also judged by the Lean terminating predicate); small streams outside the model judged by Build-vs-go/types only (complex/interface operands, non-constant shifts of untyped constants, package-level declarations, imports); an assignability/convertibility matrix (assign_matrix.go: 71 pool types incl. interfaces with methods and native types implementing them × 203 values incl. non-constant untyped booleans and shifts × 55 contexts, systematic — all cells at the thorough tier; every untyped value in every context, typed values in three rotating contexts and the neighbourhood of every finding class at the quick tier — plus random programs with nested values; finding classes predicted from cell coordinates and go/types' verdict, precision measured per run); a type-identity matrix (identity.go: ~100 seed types and random ones of depth <= 3 over a structural type syntax, each paired with itself and with every ONE-EDIT variant at any nesting level — variadic-ness, parameter/result added, dropped, swapped, channel direction, array length, slice/array, struct field name, case, tag, embedded-ness, order, count, map key/element swapped, pointer depth, another basic type, another interface method set, named vs unnamed vs another defined type, byte/uint8 rune/int32 any/interface{} respellings — in both directions, in 12 contexts (var, assignment, argument, return, conversion, struct field, slice element, map value, send, variadic argument, append, ==) with the value written as variable, call result, function/composite literal, make, new, method value or method expression; plus every ordered pair of 55 types of all kinds in var-decl and conversion; also judged: the Lean model's identical/assignable/convertible against go/types' Identical/AssignableTo/ConvertibleTo on every pair, and go/types' API against its verdict on the program); a case is non-trivial when it has at least one operator or conversion; distinct by source text"
 
 	if c.Replay != "" {
 		return replay(c)
 	}
 
+	if f := os.Getenv("C03_TRY"); f != "" { // debugging aid: one source file on Build and go/types
+		data, err := os.ReadFile(f)
+		if err != nil {
+			return err
+		}
+		r, o := evalSrc(string(data))
+		fmt.Fprintf(os.Stderr, "build: %s %s\ngo/types: ok=%v %s\n", r.Class, r.Msg, o.OK, o.Msg)
+		return nil
+	}
+	if os.Getenv("C03_ONLY") == "identity" { // debugging aid: the type-identity matrix alone
+		return runIdentity(c)
+	}
 	if os.Getenv("C03_ONLY") == "matrix" { // debugging aid: the assignability matrix alone
 		runMatrix(c)
 		return validateAssignableModel(c)
@@ -458,7 +470,10 @@ func run(c *hx.Ctx) error {
 		compareModel(c, tc)
 	}
 	runMatrix(c)
-	return validateAssignableModel(c)
+	if err := validateAssignableModel(c); err != nil {
+		return err
+	}
+	return runIdentity(c)
 }
 
 // replay re-runs the case of a replay file: the recorded source on Build and go/types, and the
